@@ -572,8 +572,11 @@ def main(tier, replay):
                 for g_ in (16, 2, 1):
                     extra.append((prof, 100000 + k * 40, 20, g_))
 
+        t_start = timer.s()
+        t_budget = 120 if tier == "quick" else 600
+
         def runx(t):
-            if h.rejected or timer.s() > (170 if tier == "quick" else 1300):
+            if h.rejected or h.crashes or timer.s() - t_start > t_budget:
                 return []
             prof, first, count, g_ = t
             return h.run_chunk(seed + 7, first, count, prof, g_, tag="t")
